@@ -2,8 +2,9 @@ import NodisVerif.Proofs.C08Lookup
 import NodisVerif.Proofs.C16Handlers2
 import NodisVerif.Proofs.C16Table2b
 import NodisVerif.Proofs.C16Table3b
+import NodisVerif.Proofs.C16Table4
 /-
-  C16 for the server's complete dispatch `fullTable = Driver.lookup [table1, table2, table3]`.
+  C16 for the server's complete dispatch `fullTable = Driver.lookup [table1, table2, table3, table4]`.
 -/
 namespace NodisVerif.Proofs.C08Step
 open Resp
@@ -16,10 +17,11 @@ theorem fullTable_oneReply : TableOneReply fullTable := by
   refine lookup_all (P := Proofs.C16Handlers.OneReply) allTables ?_ name args r h
   intro t ht n a r' hr
   simp only [allTables, List.mem_cons, List.not_mem_nil, or_false] at ht
-  rcases ht with rfl | rfl | rfl
+  rcases ht with rfl | rfl | rfl | rfl
   · exact table1_tableOneReply n a r' hr
   · exact Proofs.C16Table2.table2_tableOneReply n a r' hr
   · exact Proofs.C16Table3.table3_tableOneReply n a r' hr
+  · exact Proofs.C16Table4.table4_tableOneReply n a r' hr
 
 /-- … and only tokens a strict RESP reader accepts -/
 theorem fullTable_wire : TableWire fullTable := by
@@ -27,9 +29,10 @@ theorem fullTable_wire : TableWire fullTable := by
   refine lookup_all (P := WireRes) allTables ?_ name args r h
   intro t ht n a r' hr
   simp only [allTables, List.mem_cons, List.not_mem_nil, or_false] at ht
-  rcases ht with rfl | rfl | rfl
+  rcases ht with rfl | rfl | rfl | rfl
   · exact table1_wire n a r' hr
   · exact Proofs.C16Table2.table2_wire n a r' hr
   · exact Proofs.C16Table3.table3_wire n a r' hr
+  · exact Proofs.C16Table4.table4_wire n a r' hr
 
 end NodisVerif.Proofs.C08Step
